@@ -261,7 +261,9 @@ def power_method_opnorm(op, xstart=None, maxiter=100, rtol=1e-05, atol=1e-08,
         opnorm, opnorm_old = calc_opnorm(x_norm), opnorm
 
         # If the breaking condition holds, stop. Else rescale and go on.
-        if np.isclose(opnorm, opnorm_old, rtol, atol):
+        # The first estimate has no predecessor to be compared with (the
+        # initial value is merely the norm of the starting point)
+        if i > 0 and np.isclose(opnorm, opnorm_old, rtol, atol):
             break
         else:
             x /= x_norm
